@@ -243,4 +243,105 @@ theorem HasH_runSys {k st} (h : HasH x c) : HasH x ((runSys c k st).1) := by
 theorem HasH_runHandler {k st} (h : HasH x c) : HasH x ((runHandler c k st).1) := by
   c4auto runHandler
 
+/-! ### the branches of `_handle_sm` -/
+
+/-- same XEP-0198 record up to `enabled` and the inbound counter -/
+structure SmKeep (s s' : SmState) : Prop where
+  queue : s'.queue = s.queue
+  sentNr : s'.sentNr = s.sentNr
+  id : s'.id = s.id
+  previd : s'.previd = s.previd
+  boundJid : s'.boundJid = s.boundJid
+  support : s'.support = s.support
+  canResume : s'.canResume = s.canResume
+
+/-- the record after `<enabled/>` was accepted -/
+structure SmEnabled (s s' : SmState) : Prop where
+  queue : s'.queue = s.queue
+  sentNr : s'.sentNr = s.sentNr
+  enabled : s'.enabled = true
+  id : s'.id = s.id ∨ (s'.id.isSome = true ∧ s'.canResume = true)
+  previd : s'.previd = s.previd
+  boundJid : s'.boundJid = s.boundJid
+  support : s'.support = s.support
+  canResume : s'.canResume = s.canResume ∨ (s'.id.isSome = true ∧ s'.canResume = true)
+
+/-- the record after `<failed/>` with a cause: reset, what the server handled is dropped -/
+structure SmFailed (s s' : SmState) : Prop where
+  queue : s'.queue <:+ s.queue
+  sentNr : s'.sentNr = 0
+  enabled : s'.enabled = false
+  id : s'.id = none
+  previd : s'.previd = none
+  boundJid : s'.boundJid = none
+  support : s'.support = s.support
+
+/-- what `_handle_sm` does after the record was reset -/
+def hsmTail (c3 : Conn) (hadBind wasResume : Bool) : Conn :=
+  if hadBind then triggerSmCallback (doBind c3)
+  else if wasResume then triggerSmCallback (xmppDisconnect c3)
+  else if !c3.negotiated then triggerSmCallback (negotiationSuccess c3)
+  else triggerSmCallback c3
+
+theorem handleSm_cases (P : Conn → Prop) (c : Conn) (st : XTree)
+    (hdis : ∀ s', s'.enabled = false → SmKeep c.sm s' → P { c with sm := s' })
+    (hen : c.sm.enabled = true → st.name? = some (b "enabled") → ∀ s', SmEnabled c.sm s' →
+      P (negotiationSuccess (smQueueResend { c with sm := s' })))
+    (hres : ∀ ours v, c.sm.previd = some ours → st.name? = some (b "resumed") →
+      P (negotiationSuccess (smQueueResend (resumedC1 c v))))
+    (hfail : ∀ s', SmFailed c.sm s' → ∀ hb wr, wr = c.sm.resume → P (hsmTail { c with sm := s' } hb wr)) :
+    P (handleSm c st) := by
+  have keep : ∀ (s' : SmState), s'.enabled = false → s'.queue = c.sm.queue → s'.sentNr = c.sm.sentNr →
+      s'.id = c.sm.id → s'.previd = c.sm.previd → s'.boundJid = c.sm.boundJid → s'.support = c.sm.support →
+      s'.canResume = c.sm.canResume → P { c with sm := s' } :=
+    fun s' h0 h1 h2 h3 h4 h5 h6 h7 => hdis s' h0 ⟨h1, h2, h3, h4, h5, h6, h7⟩
+  have nm : ∀ n : Bytes, st.name?.getD [] = n → n ≠ [] → st.name? = some n := by
+    intro n hn hne
+    cases h : st.name? with
+    | none => rw [h] at hn; exact absurd hn.symm hne
+    | some m => rw [h] at hn; exact congrArg some hn
+  unfold handleSm
+  dsimp only
+  refine pred_ite (P := P) (fun hn => ?_) (fun _ => ?_)
+  · have hname := nm _ hn (by decide)
+    refine pred_ite (P := P) (fun _ => ?_) (fun he => ?_)
+    · exact keep _ rfl rfl rfl rfl rfl rfl rfl rfl
+    · have he : c.sm.enabled = true := by simpa using he
+      split
+      · split
+        · exact keep _ rfl rfl rfl rfl rfl rfl rfl rfl
+        · exact hen he hname _ ⟨rfl, rfl, he, .inr ⟨rfl, rfl⟩, rfl, rfl, rfl, .inr ⟨rfl, rfl⟩⟩
+      · exact hen he hname _ ⟨rfl, rfl, he, .inl rfl, rfl, rfl, rfl, .inl rfl⟩
+  · refine pred_ite (P := P) (fun hn => ?_) (fun _ => ?_)
+    · have hname := nm _ hn (by decide)
+      split
+      · exact keep _ rfl rfl rfl rfl rfl rfl rfl rfl
+      · rename_i ours hp
+        refine pred_ite (P := P) (fun _ => ?_) (fun _ => ?_)
+        · exact keep _ rfl rfl rfl rfl rfl rfl rfl rfl
+        · split
+          · exact keep _ rfl rfl rfl rfl rfl rfl rfl rfl
+          · rename_i v hv
+            have := hres ours v hp hname
+            unfold resumedC1 at this
+            exact this
+    · refine pred_ite (P := P) (fun _ => ?_) (fun _ => ?_)
+      · split
+        · exact keep _ rfl rfl rfl rfl rfl rfl rfl rfl
+        · rename_i cause hc
+          have hq : ∀ v, smQueueCleanup c.sm.queue v <:+ c.sm.queue := fun v => List.dropWhile_suffix _
+          show P (hsmTail _ _ _)
+          by_cases h1 : cause.name?.getD [] = b "item-not-found"
+          · by_cases h2 : c.sm.resume = true
+            · simp only [h1, h2, ↓reduceIte]
+              refine hfail _ ?_ _ _ ?_ <;> first | exact ⟨hq _, rfl, rfl, rfl, rfl, rfl, rfl⟩ | simp [h2]
+            · simp only [h1, h2, ↓reduceIte]
+              refine hfail _ ?_ _ _ ?_ <;> first | exact ⟨List.suffix_refl _, rfl, rfl, rfl, rfl, rfl, rfl⟩ | simp [h2]
+          · by_cases h3 : cause.name?.getD [] = b "feature-not-implemented"
+            · simp only [h1, h3, ↓reduceIte]
+              refine hfail _ ?_ _ _ ?_ <;> first | exact ⟨List.suffix_refl _, rfl, rfl, rfl, rfl, rfl, rfl⟩ | rfl
+            · simp only [h1, h3, ↓reduceIte]
+              refine hfail _ ?_ _ _ ?_ <;> first | exact ⟨List.suffix_refl _, rfl, rfl, rfl, rfl, rfl, rfl⟩ | rfl
+      · exact keep _ rfl rfl rfl rfl rfl rfl rfl rfl
+
 end Strophe.Lemmas.ConnC04
